@@ -122,13 +122,37 @@ pub fn udp_socket_over(
     Arc<MemUnderlay>,
     Arc<ScmpErrorLog>,
 ) {
+    let (socket, mem, mut logs) = udp_socket_with_receivers(local, rx, with_echo_handler, 1, 0);
+    (socket, mem, logs.remove(0))
+}
+
+/// As [`udp_socket_over`], with `receivers` registered SCMP error receivers of which the first
+/// `dropped` are dropped again before anything is received (the stack holds them weakly).
+/// Returns the logs of the surviving receivers in registration order.
+pub fn udp_socket_with_receivers(
+    local: ScionSocketIpAddr,
+    rx: Vec<Vec<u8>>,
+    with_echo_handler: bool,
+    receivers: usize,
+    dropped: usize,
+) -> (
+    PathUnawareUdpScionSocket,
+    Arc<MemUnderlay>,
+    Vec<Arc<ScmpErrorLog>>,
+) {
     let mem = Arc::new(MemUnderlay {
         rx: Mutex::new(rx.into()),
         tx: Mutex::new(Vec::new()),
     });
-    let log = Arc::new(ScmpErrorLog::default());
-    let receivers: Subscribers<dyn ScmpErrorReceiver> = Subscribers::new();
-    receivers.register(log.clone());
+    let mut logs: Vec<Arc<ScmpErrorLog>> = (0..receivers.max(1))
+        .map(|_| Arc::new(ScmpErrorLog::default()))
+        .collect();
+    let subscribers: Subscribers<dyn ScmpErrorReceiver> = Subscribers::new();
+    for log in &logs {
+        subscribers.register(log.clone());
+    }
+    logs.drain(..dropped.min(logs.len() - 1));
+    let receivers = subscribers;
     let mut handlers: Vec<Box<dyn ScmpHandler>> = Vec::new();
     if with_echo_handler {
         handlers.push(Box::new(DefaultEchoHandler::new()));
@@ -142,5 +166,5 @@ pub fn udp_socket_over(
         },
         handlers,
     );
-    (socket, mem, log)
+    (socket, mem, logs)
 }
